@@ -212,6 +212,11 @@ def run(rep, tier, rng):
                  ('map', None, [('c', ('map', '!del', [('c', ('sc', None, '1')), (0, ('sc', '!weak', 'null'))]))])])     # D18 seen through idempotence
     hist.append([('map', None, [('l', ('seq', None, [('sc', None, '1'), ('map', '!force', [('r', ('sc', None, '1'))])]))]),
                  ('map', None, [('l', ('seq', None, [('map', '!merge', [('b', ('sc', None, '0'))]), ('sc', None, '5')]))])])     # D5 seen through idempotence
+    # a list whose priority differs from the incoming, longer list (the container's hidden priority after the first merge decides the second)
+    from ..reparse import parse_doc
+    for a, b in (("{a: !force [1]}", "{a: [7, 8, 9]}"), ("{a: [1]}", "{a: !weak [7, 8, 9]}"), ("{t: {s: !force [w], lr: 1}}", "{t: {s: [a, b, c, d]}}"),
+                 ("{a: !force {l: [1]}}", "{a: {l: [7, 8, 9]}}"), ("{a: !weak [1]}", "{a: [7, 8, 9]}")):
+        hist.append([parse_doc(a), parse_doc(b)])
     show = lambda docs: [gen.render(d) for d in docs]
     for docs in hist:
         tags = sum(len(gen.tag_hist(d)) for d in docs)
